@@ -515,8 +515,8 @@ func (r *Resolver) resolveOneNoCache(ctx context.Context, name, typ string) ([]a
 	var res []any
 	var ttl uint32
 	want := strings.TrimSuffix(name, ".")
-	for _, a := range result.Answer {
-		if ttl == 0 || ttl > a.TTL {
+	for i, a := range result.Answer {
+		if i == 0 || ttl > a.TTL {
 			ttl = a.TTL
 		}
 		name := strings.TrimSuffix(a.Name, ".")
